@@ -109,3 +109,13 @@ pub fn c05_pok_relabelled_is_rejected(p1: &ProofOfKnowledge, p2: &ProofOfKnowled
     }
     assert(!(v1 is Ok && v2 is Ok));
 }
+
+/// aggregates are bound to their scheme as well: whatever an aggregate of scheme S accepts satisfies
+/// the aggregate equation under S's own signature tag (and S's message form) — never under the
+/// proof-of-possession tag or another scheme's tag; so (X-DSEP) a sum of proofs of possession is not an
+/// aggregate signature, and an aggregate relabelled to another scheme is rejected
+pub fn c05_aggregate_is_bound_to_its_scheme_tag(a: &AggregateSignature, data: &[(PublicKey, &[u8])])
+{
+    let v = a.verify(data);
+    assert(v is Ok ==> agg_sum_eq(agg_scheme(*a), data_pairs(data@), agg_point(*a)));
+}
